@@ -90,6 +90,7 @@ type Obj struct {
 	Type types.Type
 	Name string
 	Prov string // fresh | param:<n> | global:<n> | recv
+	Guard *Obj  // the mutex object guarding this object (maps / fields living next to a mutex)
 }
 
 type Content struct {
@@ -140,6 +141,11 @@ type State struct {
 	calls   []*CallRecord
 	marks   []string
 	written map[string]bool // receiver fields stored to (objID.field)
+	allocC  int64 // measured: sum of the constant parts of the allocation bounds on this path
+	allocA  int64 // measured: largest per-byte coefficient on this path
+	allocUnknown bool
+	acqState *Term // registry: guarded map state right after the lock was acquired
+	relState *Term // registry: guarded map state when the lock was released
 }
 
 func (s *State) clone() *State {
@@ -161,6 +167,11 @@ func (s *State) clone() *State {
 		calls:   append([]*CallRecord{}, s.calls...),
 		marks:   append([]string{}, s.marks...),
 		written: map[string]bool{},
+		acqState: s.acqState,
+		allocC: s.allocC,
+		allocA: s.allocA,
+		allocUnknown: s.allocUnknown,
+		relState: s.relState,
 	}
 	for k, v := range s.env {
 		n.env[k] = v
